@@ -191,6 +191,8 @@ class _KalEval:
             if q in ('numpy.dot', 'numpy.matmul') and len(node.args) == 2:
                 return A.mul(self.ev(node.args[0]), self.ev(node.args[1]))
             if q == 'numpy.transpose':
+                if len(node.args) != 1 or node.keywords:
+                    raise AnalysisError('kalman: np.transpose with axes')
                 return A.T(self.ev(node.args[0]))
             if q in ('numpy.eye', 'numpy.identity'):
                 return A.ident()
